@@ -19,7 +19,7 @@ func init() {
 				"(R3) heap freshness as a typestate: after any store to a per-peer ordering key (totalAllocated, pendingAllocations) the element is Update/Remove/Pop'ed before the next Peek and before the public operation returns (boolean helper summarised per result); " +
 				"(R4) one answer per request: the response channel is buffered, and on every path of the allocate operation exactly one of {answer sent, request appended to the waiting list} happens; a grant from the waiting list answers and dequeues the same head element; " +
 				"the waiting list is consumed from the head and appended at the tail; (R5) releasing a peer sends a non-nil error to every waiting request of that peer. " +
-				"Not decided: the comparator's ordering semantics and 'as soon as it fits' over all histories.",
+				"(R6) the heap comparator agrees with the reference order on every small state (finite-domain evaluation). Not decided: 'as soon as it fits' over all histories.",
 			Assumptions: append([]string{"go-ipfs-pq's Update/Remove/Pop/Peek implement a heap over the comparator"}, commonTrust...),
 			Technique:   "typestate dataflow with helper summaries, CFG path counting, must-reach on the CFG, guard dominance",
 		},
@@ -37,6 +37,8 @@ func runC14(c *engine.Ctx) {
 	if a == nil {
 		return
 	}
+	r6 := c.Rule("R6", "the peer-queue comparator orders: head fits its peer limit (by request index) < head does not fit < nothing waiting (by total) — finite evaluation over all small states", 1)
+	c14Comparator(c, r6, a)
 	respF := c.P.Field("allocator", "pendingAllocation", "response")
 	if respF == nil {
 		c.AnchorMissing(r4, "allocator.pendingAllocation.response")
@@ -131,6 +133,28 @@ func runC14(c *engine.Ctx) {
 			}
 			c.Decide(r2, fmt.Sprintf("%s|wake-after %s %s", engine.FuncName(f), ch.kind, ch.field.Name()), ch.st.Pos(), ok, "pending allocations are processed before returning", why)
 		}
+	}
+
+	// R2b: removing a peer from the queue can also unblock others (it may have been the head): same obligation
+	for _, f := range a.fns {
+		if f == ppa {
+			continue
+		}
+		engine.Instrs(f, func(in ssa.Instruction) {
+			if !isHeapCall(in, "Remove", "Pop") {
+				return
+			}
+			isPPA := func(x ssa.Instruction) bool {
+				cc, ok := x.(*ssa.Call)
+				return ok && cc.Call.StaticCallee() == ppa
+			}
+			ok, ret := engine.MustReachBeforeReturn(in, isPPA, nil)
+			why := ""
+			if !ok && ret != nil {
+				why = "after removing a peer from the queue the function can return at " + c.P.Pos(ret.Pos()) + " without processing pending allocations: requests that were waiting behind that peer and now fit are left waiting"
+			}
+			c.Decide(r2, fmt.Sprintf("%s|wake-after queue-removal", engine.FuncName(f)), in.Pos(), ok, "pending allocations are processed after a peer leaves the queue", why)
+		})
 	}
 
 	// R3 typestate
@@ -344,4 +368,169 @@ func runC14(c *engine.Ctx) {
 		c.Violate(r5, "fail-waiters", token.NoPos, "no peer-release path answers the peer's waiting requests")
 	}
 	_ = types.Typ
+}
+
+// ---- R6: the heap comparator agrees with the reference order on every small state (finite-domain evaluation)
+
+type cmpState struct {
+	pending  bool  // has a waiting allocation
+	total    int64 // totalAllocated
+	amount   int64 // amount of the head waiting allocation
+	allocIdx int64 // request index of the head waiting allocation
+}
+
+// refLess: peers whose head waiting allocation fits their own limit come first, in request order;
+// then peers whose head does not fit; then peers with nothing waiting, least allocated first.
+func refLess(a, b cmpState, maxPerPeer int64) bool {
+	class := func(s cmpState) int {
+		if !s.pending {
+			return 2
+		}
+		if s.total+s.amount > maxPerPeer {
+			return 1
+		}
+		return 0
+	}
+	ca, cb := class(a), class(b)
+	if ca != cb {
+		return ca < cb
+	}
+	switch ca {
+	case 0:
+		return a.allocIdx < b.allocIdx
+	case 2:
+		return a.total < b.total
+	}
+	return false
+}
+
+func c14Comparator(c *engine.Ctx, rule string, a *allocFacts) {
+	mk := c.P.Func("allocator", "", "makePeerStatusCompare")
+	if mk == nil || len(mk.AnonFuncs) != 1 {
+		c.AnchorMissing(rule, "allocator.makePeerStatusCompare closure")
+		return
+	}
+	cmp := mk.AnonFuncs[0]
+	c.Analysed(engine.FuncName(cmp))
+	amountF := c.P.Field("allocator", "pendingAllocation", "amount")
+	idxF := c.P.Field("allocator", "pendingAllocation", "allocIndex")
+	if amountF == nil || idxF == nil || len(cmp.Params) != 2 {
+		c.AnchorMissing(rule, "allocator.pendingAllocation{amount,allocIndex}")
+		return
+	}
+	// which parameter does a value's access path start at?
+	side := func(v ssa.Value) int {
+		for i := 0; i < 10 && v != nil; i++ {
+			v = engine.Strip(v)
+			switch x := v.(type) {
+			case *ssa.Parameter:
+				for k, p := range cmp.Params {
+					if p == x {
+						return k
+					}
+				}
+				return -1
+			case *ssa.TypeAssert:
+				v = x.X
+			case *ssa.UnOp:
+				v = x.X
+			case *ssa.FieldAddr:
+				v = x.X
+			case *ssa.IndexAddr:
+				v = x.X
+			case *ssa.Extract:
+				v = x.Tuple
+			default:
+				return -1
+			}
+		}
+		return -1
+	}
+	const maxPerPeer = 10
+	vals := []cmpState{}
+	for _, pend := range []bool{false, true} {
+		for _, total := range []int64{0, 4, 8} {
+			if !pend {
+				vals = append(vals, cmpState{false, total, 0, 0})
+				continue
+			}
+			for _, amount := range []int64{1, 6} {
+				for _, idx := range []int64{1, 2} {
+					vals = append(vals, cmpState{true, total, amount, idx})
+				}
+			}
+		}
+	}
+	bad := ""
+	n := 0
+	for _, sa := range vals {
+		for _, sb := range vals {
+			st := [2]cmpState{sa, sb}
+			var results []engine.EVal
+			ev := &engine.Evaluator{MaxVisits: 2}
+			ev.Input = func(v ssa.Value) (engine.EVal, bool) {
+				if fv, ok := v.(*ssa.FreeVar); ok && fv.Name() == mk.Params[0].Name() {
+					return engine.EVal{K: engine.EInt, I: maxPerPeer}, true
+				}
+				u, ok := v.(*ssa.UnOp)
+				if !ok {
+					return engine.EVal{}, false
+				}
+				if fv, ok := u.X.(*ssa.FreeVar); ok && fv.Name() == mk.Params[0].Name() {
+					return engine.EVal{K: engine.EInt, I: maxPerPeer}, true
+				}
+				fa, ok := u.X.(*ssa.FieldAddr)
+				if !ok {
+					return engine.EVal{}, false
+				}
+				k := side(fa.X)
+				if k < 0 {
+					return engine.EVal{}, false
+				}
+				switch engine.FieldOf(fa) {
+				case a.peerTotal:
+					return engine.EVal{K: engine.EInt, I: st[k].total}, true
+				case amountF:
+					return engine.EVal{K: engine.EInt, I: st[k].amount}, true
+				case idxF:
+					return engine.EVal{K: engine.EInt, I: st[k].allocIdx}, true
+				}
+				return engine.EVal{}, false
+			}
+			ev.Call = func(call *ssa.Call, get func(ssa.Value) engine.EVal) (engine.EVal, bool) {
+				if b, ok := call.Call.Value.(*ssa.Builtin); ok && b.Name() == "len" {
+					if fl, base := engine.LoadedField(call.Call.Args[0]); fl == a.pending {
+						if k := side(base); k >= 0 {
+							if st[k].pending {
+								return engine.EVal{K: engine.EInt, I: 1}, true
+							}
+							return engine.EVal{K: engine.EInt, I: 0}, true
+						}
+					}
+				}
+				return engine.EVal{}, false
+			}
+			ev.Observe = func(in ssa.Instruction, get func(ssa.Value) engine.EVal) {
+				if r, ok := in.(*ssa.Return); ok {
+					results = append(results, get(r.Results[0]))
+				}
+			}
+			ev.Run(cmp)
+			n++
+			want := refLess(sa, sb, maxPerPeer)
+			if ev.Aborted || len(results) != 1 || results[0].K != engine.EBool {
+				bad = fmt.Sprintf("cannot evaluate the comparator on state a=%+v b=%+v (it is no longer a pure comparison of totals, head amounts and request indices)", sa, sb)
+				break
+			}
+			if results[0].B != want {
+				bad = fmt.Sprintf("comparator(a=%+v, b=%+v) = %v, reference order says %v: waiting peers are not served in request order / fit order", sa, sb, results[0].B, want)
+				break
+			}
+		}
+		if bad != "" {
+			break
+		}
+	}
+	c.Decide(rule, engine.FuncName(cmp), cmp.Pos(), bad == "",
+		fmt.Sprintf("agrees with the reference order (fits-in-request-order < does-not-fit < nothing-waiting-by-total) on all %d state pairs", n), bad)
 }
